@@ -40,6 +40,7 @@ EXPLANATION += (' R-C13-9 (shared with R-C14-11): after `a, b = x.broadcast(y)` 
 EXPLANATION += (' R-C13-10: no broadcast frame is built as pd.DataFrame(<list of the Series object>) without an explicit index (pandas would label the rows with the object\'s name); built-in example.')
 EXPLANATION += (" R-C13-11: the rule R-C12-8 evaluated for this property (the consumer of the broadcast in the mean stress transformation of a matrix puts the levels of the broadcast result into the order of the matrix and re-indexes it by the matrix's index before anything is combined by position).")
 EXPLANATION += (" R-C13-12: the index levels cached by the broadcaster are read as pandas Index objects only - not through .values / .to_numpy() / np.asarray / .tolist(), which change the type of time-zone aware, categorical, interval and nullable keys.")
+EXPLANATION += (" R-C13-1 covers exceptional exits too (defect repaired in /repo 4dafbb3): each acquisition (placeholder names, index re-coding) is immediately followed by a try statement whose finally clause contains the matching release.")
 ASSUMPTIONS = [
     "pandas DataFrame.align(Series, axis=0) may return the frame with its previous index when the joined index requires no row "
     "movement on the frame side (behaviour of the installed pandas; the repository wraps the series for that reason)",
@@ -176,10 +177,13 @@ def run(ctx):
                 ctx.violated(fi, s, "a path from the name replacement to a normal return does not pass the matching "
                              "restore of the level names")
                 continue
-            missing = set()
+            covered = set()
             for rs, rc in rels:
-                ro = _list_elts(rc.args[0]) or []
-                missing |= set(objs) - set(ro)
+                if cfg.must_pass(cfg.exit, {cfg.node(rs)}, start=n0):
+                    covered |= set(_list_elts(rc.args[0]) or [])
+            missing = set(objs) - covered
+            _exceptional(ctx, fi, s, [rs for rs, rc in rels if set(objs) <= set(_list_elts(rc.args[0]) or [])],
+                         "the placeholder level names of %s" % objs)
             if missing:
                 ctx.violated(fi, rels[0][0], "level-name restore does not cover acquired operand(s) %s" % sorted(missing))
             else:
@@ -197,6 +201,7 @@ def run(ctx):
                 continue
             ctx.holds(fi, s, "indices of %s re-coded and restored on every normal path" %
                       [norm_text(a) for a in c.args], {"cache": var})
+            _exceptional(ctx, fi, s, [rs for rs, rc in rs_], "the re-coded indices of %s" % [norm_text(a) for a in c.args])
             pairs.append(("index", s, [rs for rs, _ in rs_]))
         # LIFO
         dom = cfg.dominators()
@@ -550,6 +555,29 @@ def _r12(ctx):
             ctx.holds(ci.key, None, "%s: cached index levels are only indexed as Index objects" % ci.name)
     if n == 0:
         raise AnalysisError("no class found in the broadcaster module")
+
+
+def _exceptional(ctx, fi, acquire_stmt, release_stmts, what):
+    """R-C13-1, exceptional exits: pandas refuses some index layouts in the middle of the alignment (NotImplementedError for
+    non-unique unnamed indices, IndexError for a missing combination of shared levels).  The operands belong to the caller: the
+    acquire statement must be IMMEDIATELY followed by a try statement whose finally clause contains the matching release
+    (nothing that can raise in between)."""
+    blk = None
+    par = getattr(acquire_stmt, "_parent", None)
+    for f_, v in ast.iter_fields(par) if par is not None else []:
+        if isinstance(v, list) and any(x is acquire_stmt for x in v):
+            blk = v
+    nxt = None
+    if blk is not None:
+        i = [k for k, x in enumerate(blk) if x is acquire_stmt][0]
+        nxt = blk[i + 1] if i + 1 < len(blk) else None
+    ok = isinstance(nxt, ast.Try) and nxt.finalbody and any(any(x is r for x in ast.walk(fb)) for fb in nxt.finalbody for r in release_stmts)
+    if ok:
+        ctx.holds(fi, acquire_stmt, "%s are given back in the finally clause of the try statement that follows the acquisition" % what)
+    else:
+        ctx.violated(fi, acquire_stmt, "%s are restored on the normal path only: the acquisition is not immediately followed by a try "
+                     "statement whose finally clause releases them, so an exception raised by pandas during the alignment leaves "
+                     "the CALLER's operands with re-coded indices / placeholder names" % what, text="no release on exceptional exits: " + what[:40])
 
 
 def _r11(ctx):
